@@ -1897,9 +1897,13 @@ func (c *Ctx) copyIsDeep(r *inmemRoles, rule string, fn *ssa.Function) {
 		}
 		for i := 0; i < st.NumFields(); i++ {
 			f := st.Field(i)
+			isRef := false
 			switch f.Type().Underlying().(type) {
 			case *types.Slice, *types.Pointer, *types.Map:
-			default:
+				isRef = true
+			}
+			if !isRef {
+				c.copyCarriesField(rule, fn, ret, cell, recv, recvCell, f, initAlias, nil, fromRecv)
 				continue
 			}
 			// the receiver's field is nil on this edge: sharing nil shares nothing
@@ -1951,8 +1955,100 @@ func (c *Ctx) copyIsDeep(r *inmemRoles, rule string, fn *ssa.Function) {
 					okField, detail = false, "field "+f.Name()+" of the result is assigned a value that is not freshly allocated (it shares the receiver's memory)"
 				}
 			}
+			c.copyCarriesField(rule, fn, ret, cell, recv, recvCell, f, initAlias, nilEdge, fromRecv)
 			c.Decide(rule, fn, "Copy duplicates "+f.Name(), ret, okField,
 				"Record.Copy() shares memory with its receiver: "+detail+" - the record in the table, the writer's record and the records handed out by Get then share it, and writing through it changes the stored record without a write operation (no new version, waiters are not woken, an expiry moves)")
 		}
 	}
+}
+
+// copyCarriesField: the other half of "Copy() is a copy" - no field of the record is lost or replaced. On every path to
+// the return the result's field f was given a value that comes from the receiver's field f (the field itself, or for a
+// reference a fresh object built from it), except - for a reference - on a path on which the receiver's field is nil.
+// A Copy() that drops the expiry for some records (a zero time "means unset") makes the in-memory table keep a record
+// for good that the writer gave a lifetime, and the two backends disagree.
+func (c *Ctx) copyCarriesField(rule string, fn *ssa.Function, ret *ssa.Return, cell *ssa.Alloc, recv *ssa.Parameter, recvCell ssa.Value, f *types.Var, initAlias bool,
+	nilEdge func(from, to *ssa.BasicBlock) bool, fromRecv func(v ssa.Value, f *types.Var) bool) {
+	isFieldStore := func(x ssa.Instruction) (ssa.Value, bool) {
+		s, ok := x.(*ssa.Store)
+		if !ok {
+			return nil, false
+		}
+		fa, isFA := s.Addr.(*ssa.FieldAddr)
+		if !isFA || fa.X != ssa.Value(cell) || ir.FieldOf(fa) != f {
+			return nil, false
+		}
+		return s.Val, true
+	}
+	anyStore := func(x ssa.Instruction) bool { _, ok := isFieldStore(x); return ok }
+	// does v come from the receiver's field f: the field, or something computed from it
+	var mentions func(v ssa.Value, depth int, seen map[ssa.Value]bool) bool
+	mentions = func(v ssa.Value, depth int, seen map[ssa.Value]bool) bool {
+		if v == nil || depth > 8 || seen[v] {
+			return false
+		}
+		seen[v] = true
+		if fromRecv(v, f) {
+			return true
+		}
+		if fl, ok := v.(*ssa.Field); ok && ir.FieldOf(fl) == f {
+			return true
+		}
+		if al, ok := v.(*ssa.Alloc); ok {
+			for _, s := range ir.StoresTo(al) {
+				if mentions(s.Val, depth+1, seen) {
+					return true
+				}
+			}
+			return false
+		}
+		in, ok := v.(ssa.Instruction)
+		if !ok {
+			return false
+		}
+		var ops [12]*ssa.Value
+		for _, op := range in.Operands(ops[:0]) {
+			if op != nil && *op != nil && mentions(*op, depth+1, seen) {
+				return true
+			}
+		}
+		return false
+	}
+	ok, detail := true, ""
+	if !initAlias {
+		w, err := (ir.Query{Fn: fn, Block: anyStore, BlockEdge: nilEdge, Target: func(x ssa.Instruction) bool { return x == ssa.Instruction(ret) }}).Find()
+		if err != nil {
+			c.Undecided(rule, fn, "Copy carries "+f.Name()+" over", ret, err.Error())
+			return
+		}
+		if w != nil {
+			ok, detail = false, "there is a path to the return on which the result's "+f.Name()+" is never assigned although the receiver's may be set: path "+w.String(c.P)
+		}
+	}
+	ir.Instrs(fn, func(x ssa.Instruction) {
+		if v, is := isFieldStore(x); is && ok {
+			if cst, isC := v.(*ssa.Const); isC && cst.Value == nil && nilEdge != nil {
+				// an explicit nil: only fine where the receiver's field is nil, which the no-path query above cannot see; ask
+				// whether the store is reachable without crossing the nil edge... a nil store behind the nil edge is dominated by it
+				for _, ff := range ir.FactsAt(x) {
+					if cm, isCmp := ff.Cmp(); isCmp && cm.Op == token.EQL && (ir.IsNilConst(cm.X) || ir.IsNilConst(cm.Y)) {
+						y := cm.X
+						if ir.IsNilConst(y) {
+							y = cm.Y
+						}
+						if fromRecv(y, f) || ir.LoadedField(y) == f {
+							return
+						}
+					}
+				}
+				ok, detail = false, "the result's "+f.Name()+" is set to nil where the receiver's is not known to be nil @ "+c.P.InstrPos(x)
+				return
+			}
+			if !mentions(v, 0, map[ssa.Value]bool{}) {
+				ok, detail = false, "the result's "+f.Name()+" is assigned a value that does not come from the receiver's "+f.Name()+" @ "+c.P.InstrPos(x)
+			}
+		}
+	})
+	c.Decide(rule, fn, "Copy carries "+f.Name()+" over", ret, ok,
+		"Record.Copy() does not hand on field "+f.Name()+" of every record: "+detail+" - the in-memory table stores and returns Copy(), so what the writer put into the field is lost or changed for such a record (a lifetime that is dropped keeps the record for good; the backends disagree)")
 }
